@@ -27,19 +27,24 @@ C10Fails(e) ==
           F(e.eval = "ok", "rendering a well-formed template failed")
        \o (IF e.eval # "ok" THEN "" ELSE F(e.out = Render(p[2], e.vars), "rendering differs from the reference semantics")))
 
+\* the clauses on a reported name list (names = [[spelling, key]..]) against the wanted keys; who = whose report it is
+NameListFails(names, want, who) ==
+  LET gotKeys == [i \in 1 .. Len(names) |-> names[i][2]]
+  IN   F(ToSet(gotKeys) = ToSet(want), who \o "reported variable names are not exactly the identifiers in variable position")
+    \o F(\A i, j \in 1 .. Len(names) : i # j => names[i][1] # names[j][1], who \o "a variable name is reported twice")
+    \o F(ToSet(gotKeys) # ToSet(want) \/
+         (LET RECURSIVE Dedup(_, _)
+              Dedup(s, acc) == IF s = <<>> THEN acc
+                               ELSE IF \E k \in 1 .. Len(acc) : acc[k] = Head(s) THEN Dedup(Tail(s), acc)
+                               ELSE Dedup(Tail(s), Append(acc, Head(s)))
+          IN Dedup(gotKeys, <<>>) = want), who \o "variable names are not reported in order of first occurrence")
 C18Fails(e) ==
   LET p == MParse(e.lex) IN
   IF p[1] # "ok" \/ e.set # "ok" THEN ""
   ELSE LET want == NameKeys(p[2], 1, <<>>)
-           gotKeys == [i \in 1 .. Len(e.names) |-> e.names[i][2]]
-       IN F(ToSet(gotKeys) = ToSet(want), "reported variable names are not exactly the identifiers in variable position")
-       \o F(\A i, j \in 1 .. Len(e.names) : i # j => e.names[i][1] # e.names[j][1], "a variable name is reported twice")
-       \o F(ToSet(gotKeys) # ToSet(want) \/
-            (LET RECURSIVE Dedup(_, _)
-                 Dedup(s, acc) == IF s = <<>> THEN acc
-                                  ELSE IF \E k \in 1 .. Len(acc) : acc[k] = Head(s) THEN Dedup(Tail(s), acc)
-                                  ELSE Dedup(Tail(s), Append(acc, Head(s)))
-             IN Dedup(gotKeys, <<>>) = want), "variable names are not reported in order of first occurrence")
+       IN NameListFails(e.names, want, "")
+       \* a parser that had another template before (and, every other time, was cleared) reports the names of THIS template
+       \o (IF "names_reused" \in DOMAIN e THEN NameListFails(e.names_reused, want, "a parser that parsed another template before: ") ELSE "")
        \o F(ToSet(e.auto) = ToSet(want) \cup ToSet(e.predefkeys) /\ \A i, j \in 1 .. Len(e.auto) : i # j => e.auto[i] # e.auto[j],
             "automatic variables are not exactly one entry per discovered name next to the entries that were already there")
 
